@@ -97,7 +97,11 @@ PROP = dict(
                  6: "f64 weights (outputs only), no move", 7: "f64 weights (outputs only), moved"},
     harness_timeout=2400,
     trusted_base=[
-        "axioms: none (every theorem of Properties/C05.v is closed under the global context)",
+        "axioms: none for the machine theorems (mutex, gain exactness, accounting, caps under hr_ok, no panic, termination, "
+        "trace link, checker: closed under the global context); the three theorems about the f64 share "
+        "(C05_headroom_f64_exact, C05_f64_share_irrelevant, C05_arcswap_safe_f64) go through Flocq 4.1 and use the classical "
+        "real-number axioms of Coq's standard library: ClassicalDedekindReals.sig_forall_dec, ClassicalDedekindReals.sig_not_dec, "
+        "FunctionalExtensionality.functional_extensionality_dep, Classical_Prop.classic",
         "the coupe_verif hooks of src/verif.rs (every shared access of ArcSwap's workers goes through TracedBool/TracedUsize) and "
         "the controlled scheduler of harness/src/bin/c05.rs: the recorded trace is the run, one access at a time",
         "tools/props_d/C05.py gen_arcswap (regex-level facts about arc_swap.rs / work_share.rs: statement order of make_move, "
@@ -106,8 +110,9 @@ PROP = dict(
     assumptions=[
         "sequential consistency: the runs considered are the interleavings of the per-thread access sequences (the property says so); "
         "the hardware memory model (acquire/release lock, relaxed part ids) is not covered",
-        "i64 vertex weights >= 0 and i64 edge weights whose sums do not overflow and stay below 2^53 (the f64 share is then the exact "
-        "quotient; checked per run: a run where it is not is reported as a correspondence failure); f64 vertex weights are not covered",
+        "i64 vertex weights >= 0 and i64 edge weights whose sums do not overflow; for |cap| + total vertex weight < 2^53 the f64 share "
+        "of the code is PROVED to be the exact quotient and the f64 machine to run exactly like the exact one (C05_f64_share_irrelevant); "
+        "the runs still use headroom_checked as a cross-check; f64 vertex weights are not covered",
         "symmetric adjacency (as sets of neighbours and as summed weights), neighbour ids < n",
         "the cap is trunc(ideal + max_imbalance * ideal) as computed in f64 by the code (cap_of); its relation to the real number is not proved",
     ],
@@ -121,7 +126,8 @@ MANIFEST = dict(
          "gain about to be stored is the cut delta in the current state), C05_arcswap_accounting (cut0 - cut = recorded gains >= 0, "
          "valid ids, move_count >= relabelled), C05_arcswap_caps (every part <= max(input weight, cap), integer weights), "
          "C05_arcswap_no_panic (no stuck or panicking state), C05_arcswap_terminates (no infinite schedule: a lexicographic measure "
-         "decreases at every access), C05_arcswap_safe / C05_replayed_run_safe (arc_swap's own "
+         "decreases at every access), C05_headroom_f64_exact / C05_f64_share_irrelevant / C05_arcswap_safe_f64 (Flocq: the IEEE share of the code is the "
+         "exact quotient below 2^53, so the caps theorem needs no premise on the share), C05_arcswap_safe / C05_replayed_run_safe (arc_swap's own "
          "configuration; an accepted trace is a schedule). The Rust code is tied to the machine by a translator (statement order and "
          "literals of make_move re-read on every run) and by replaying, event by event, the traces of 1.5k/10k runs under a "
          "controlled scheduler (systematic preemption sweeps + random/adversarial policies); a certified checker judges each output.",
